@@ -214,6 +214,10 @@ type Gen struct {
 	MaxMembers  int
 	WithCollect bool
 	WithInterp  bool
+	// C03 knobs: favour `require` clauses, members that watch something, members
+	// whose condition never holds, and `expects like` members declared after
+	// the first interpretation section.
+	VerdictBias bool
 }
 
 func (g *Gen) pick(xs []string) string { return xs[g.R.Intn(len(xs))] }
@@ -327,10 +331,16 @@ func (g *Gen) Config() *Config {
 		m := &Member{Name: names[i]}
 		// activation condition
 		kind := g.R.Intn(8)
+		if g.VerdictBias && g.R.Intn(4) == 0 {
+			kind = 100 // a mood that never occurs: the member never audits
+		}
 		if i == early && g.R.Intn(5) < 3 {
 			kind = 6 // prefer a condition over a variable computed by a member that comes later in the audience order
 		}
 		switch kind {
+		case 100:
+			m.CondKind = "other"
+			m.Cond = Bin("==", V("", "mood"), Str("green"))
 		case 0:
 			m.CondKind = "none"
 		case 1, 2:
@@ -416,7 +426,7 @@ func (g *Gen) Config() *Config {
 			m.ClauseOrdr = append(m.ClauseOrdr, fmt.Sprintf("%s expects %s: %s", m.Name, m.Modality, m.Expect.Src()))
 		}
 		// watches
-		if g.R.Intn(3) == 0 {
+		if g.R.Intn(3) == 0 || (g.VerdictBias && g.R.Intn(2) == 0) {
 			a := c.Actors[g.R.Intn(len(c.Actors))]
 			sg := g.pick([]string{"s", "e"})
 			m.WatchSigs = append(m.WatchSigs, [2]string{a, sg})
@@ -451,6 +461,9 @@ func (g *Gen) Config() *Config {
 				}
 				m := avail[g.R.Intn(len(avail))]
 				mode := g.pick([]string{"ignore", "foul upon", "require"})
+				if g.VerdictBias && g.R.Intn(3) == 0 {
+					mode = "require"
+				}
 				out = append(out, mode+" "+m.Name+" "+res)
 				if res == "disappointment" {
 					m.FoulBad = mode
@@ -467,6 +480,31 @@ func (g *Gen) Config() *Config {
 			}
 		}
 		c.Interp1 = gen(avail1)
+		if g.VerdictBias && c.InterpSplit < len(c.Members) {
+			// `X expects like Y` for a member declared after the first
+			// interpretation section, Y being an earlier member with an expects
+			for _, m := range c.Members[c.InterpSplit:] {
+				if m.Name == c.EarlyMention || g.R.Intn(2) == 0 {
+					continue
+				}
+				var cands []*Member
+				for _, y := range c.Members[:c.InterpSplit] {
+					if y.Expect != nil {
+						cands = append(cands, y)
+					}
+				}
+				if len(cands) == 0 {
+					break
+				}
+				y := cands[g.R.Intn(len(cands))]
+				// the copy takes Y's condition (unless X has its own), modality and predicate
+				m.Assigns = nil
+				m.WatchSigs, m.WatchVars = nil, nil
+				m.Modality, m.Expect = y.Modality, y.Expect
+				m.CondKind, m.Cond, m.CondMood, m.CondVar, m.CondK = y.CondKind, y.Cond, y.CondMood, y.CondVar, y.CondK
+				m.ClauseOrdr = []string{m.Name + " expects like " + y.Name}
+			}
+		}
 		c.Interp = gen(c.Members)
 		c.InterpBlank = []string{" ", " ", "  ", "\t", " \t "}[g.R.Intn(5)]
 	}
